@@ -11,10 +11,19 @@ RULE = ('random base arrays (1-4 axes, 0-7 elements per axis, element = C-order 
         'index; single and joint get; caller index arrays mutated after construction. A case is one '
         '(shape, levels, second-stage index); non-trivial when the result is non-empty and some index is not a full slice; '
         'distinct by (shape, levels, index). Separate streams: slice.indices oracle (exhaustive n<=7), _range_to_slice, '
-        '_simplify_index, chunk read sets of contiguous requests (1-3 stages incl. get_dask_array(index=...)).')
+        '_simplify_index, chunk read sets of contiguous requests (1-3 stages incl. get_dask_array(index=...)); joint '
+        'worlds: 1-3 recording chunk stores each holding arrays x and y of one shape/chunking/dtype but different '
+        'contents, 2-4 indexers over them (same selection on another store / another array, nested over an earlier '
+        'indexer with other transforms, overlapping selections of one stored array, get_dask_array(index=...) views, '
+        'shared or separately created dask arrays), fetched by ONE DaskLazyIndexer.get(...) (with and without out=) and '
+        'compared output by output with the model, the spec, numpy and the one-by-one fetch; for contiguous worlds the '
+        'get_chunk calls of the joint request are counted per store. A joint case is non-trivial when two indexers '
+        'differ only in the store or share a stored array; distinct by (shape, chunks, indexers, index).')
 ASSUMPTIONS = ['numpy outer indexing (np.take per axis) is the oracle; dask own slicing/take/cull/store are exercised, not modelled',
                'transforms of the correspondence: elementwise 2x+1 -> float64, x[..., 0], elementwise -x -> int32',
-               'read sets are compared only for requests whose composed region is non-empty on every axis (F34 otherwise)']
+               'read sets are compared only for requests whose composed region is non-empty on every axis (F34 otherwise)',
+               'joint reads: indexers of one stored array derive from one get_dask_array result or from identical calls '
+               '(same dask name); two different index= views of one stored array are separate dask arrays and share nothing']
 
 DTYPES = {0: np.dtype('int64'), 1: np.dtype('float64'), 2: np.dtype('int32')}
 F20_SIG = 'slice(step<0,start<-n);symptom=wrong_data'
@@ -22,6 +31,7 @@ F21_SIG = 'reads;empty_region;symptom=over_read'
 F23_SIG = 'cull;symptom=raises(Missing dependency)'
 F24_SIG = 'dask_take;empty_array;symptom=raises(range() arg 3 must not be zero)'
 F22_SIG = 'joint;duplicate_indexer;symptom=output_not_written'
+F48_SIG = 'joint;culled_selection;symptom=chunk_read_twice'
 
 
 def TR(code):
@@ -650,6 +660,387 @@ def wire_reads(case):
 
 
 # ---------------------------------------------------------------------------------------------
+# joint retrieval over several stores / several indexers of one stored array
+
+NAMES = ['x', 'y']
+
+
+def jcontent(shape, s, n):
+    return np.arange(int(np.prod(shape))).reshape(shape) + 1000 * (2 * s + n)
+
+
+def no_f20(shape, ixs):
+    return [('s', None, None, None) if has_f20((n,), [ix]) else ix for n, ix in zip(shape, ixs)]
+
+
+def rnd_nonempty_contig(rng, n):
+    for _ in range(6):
+        ix = rnd_contig(rng, n)
+        if isinstance(ix, int) or len(range(*slice(ix[1], ix[2], ix[3]).indices(n))) > 0:
+            return ix
+    return ('s', None, None, None)
+
+
+def gen_joint_case(rng):
+    contig = rng.random() < 0.5
+    nd = rng.randint(1, 3)
+    shape = tuple(rng.randint(1, 6 if nd <= 2 else 4) for _ in range(nd))
+    chunks = rnd_chunks(rng, shape)
+    nstores = rng.choice([1, 2, 2, 3])
+    x = np.arange(int(np.prod(shape))).reshape(shape)
+    one = (lambda r, n: rnd_nonempty_contig(r, n)) if contig else rnd_index
+
+    def rnd_keep(shp):
+        k = [one(rng, n) for n in shp[:rng.randint(0, len(shp))]]
+        k = no_f20(shp, k)
+        try:
+            np_oindex(np.zeros(shp), k)
+        except Exception:
+            return []
+        return k
+
+    def rnd_trs(ds):
+        t = list(rng.choice([[], [], [0], [2], [0, 2], [2, 0]]))
+        if not contig and rng.random() < 0.15 and ds.ndim >= 2 and ds.shape[-1] >= 1:
+            t.append(1)
+        return t
+
+    keep0 = rnd_keep(shape)
+    inds, dss = [], []
+    for j in range(rng.randint(2, 4)):
+        if j > 0 and rng.random() < 0.35:
+            p = rng.randrange(j)
+            keep = rnd_keep(dss[p].shape) if rng.random() < 0.5 else []
+            ind = dict(store=inds[p]['store'], name=inds[p]['name'], parent=p, pre=None, keep=keep, trs=None)
+            base = dss[p]
+        else:
+            pre = None
+            base = x
+            if not contig and rng.random() < 0.4:
+                pre = []
+                for n, c in zip(shape, chunks):
+                    if rng.random() < 0.5:      # start on a chunk boundary: same offset, different extent
+                        a = rng.choice(np.concatenate([[0], np.cumsum(c)[:-1]]).tolist())
+                    else:
+                        a = rng.randint(0, n - 1)
+                    pre.append(('s', int(a), rng.randint(a + 1, n), None))
+                pre = pre[:rng.randint(1, nd)]
+            where = (rng.randrange(nstores), rng.choice([0, 0, 1]))
+            views = [i for i in inds if i['pre']]
+            other_view = bool(views) and rng.random() < 0.6
+            if other_view:
+                # another view of a stored array already viewed: same start (same offset / first chunk), other extent
+                v = rng.choice(views)
+                where = (v['store'], v['name'])
+                pre = [('s', i[1], rng.randint(i[1] + 1, n), None) for i, n in zip(v['pre'], shape)]
+            if pre is not None:
+                base = np_oindex(x, pre)
+            keep = keep0 if (pre is None and rng.random() < 0.7) else rnd_keep(base.shape)
+            ind = dict(store=where[0], name=where[1], parent=None, pre=pre, keep=list(keep), trs=None)
+            twins = [i for i in inds if i['parent'] is None]
+            if twins and nstores > 1 and not other_view and rng.random() < 0.35:
+                # the same array name, view, selection and transforms - held by ANOTHER store
+                v = rng.choice(twins)
+                ind = dict(v, store=rng.choice([t for t in range(nstores) if t != v['store']]), keep=list(v['keep']),
+                           trs=list(v['trs']))
+                base = x if not v['pre'] else np_oindex(x, v['pre'])
+        ds = np_oindex(base, ind['keep'])
+        if ind['trs'] is None:
+            ind['trs'] = rnd_trs(ds)
+        for c in ind['trs']:
+            ds = tr_np(c, ds)
+        inds.append(ind)
+        dss.append(ds)
+    ref = dss[rng.randrange(len(dss))]
+    k2 = [one(rng, n) for n in ref.shape[:rng.randint(0, ref.ndim)]]
+    for ds in dss:                       # keep F20 (dask normalize_slice) out of this stream, whichever indexer it hits
+        k2 = no_f20(ds.shape, k2) + k2[ds.ndim:]
+    return dict(stream='joint', shape=list(shape), chunks=[list(c) for c in chunks], nstores=nstores, inds=inds, k2=k2,
+                contig=contig, out=rng.random() < 0.3, twin=rng.random() < 0.5, as_array=rng.random() < 0.6)
+
+
+def jchain(case, j):
+    ind = case['inds'][j]
+    own = [(ind['keep'], ind['trs'])]
+    if ind['parent'] is not None:
+        return jchain(case, ind['parent']) + own
+    return ([(ind['pre'], [])] if ind['pre'] else []) + own
+
+
+def joint_json(case):
+    d = dict(case)
+    pl = lambda k: [list(i) if isinstance(i, tuple) else i for i in k]
+    d['inds'] = [dict(i, keep=pl(i['keep']), pre=None if i['pre'] is None else pl(i['pre'])) for i in case['inds']]
+    d['k2'] = pl(case['k2'])
+    return d
+
+
+def joint_from_json(d):
+    c = dict(d)
+    c['inds'] = [dict(i, keep=[from_json(k) for k in i['keep']],
+                      pre=None if i['pre'] is None else [from_json(k) for k in i['pre']]) for i in d['inds']]
+    c['k2'] = [from_json(i) for i in d['k2']]
+    return c
+
+
+def wire_joint(case):
+    inds = [[i['store'], i['name'], [[[to_wire(ix) for ix in k], list(t)] for k, t in jchain(case, j)]]
+            for j, i in enumerate(case['inds'])]
+    return [45, [case['shape'], inds, [to_wire(i) for i in case['k2']]]]
+
+
+def joint_axes(case, j):
+    """per stored axis of indexer j: the indices reaching it, stage by stage (chain keeps, then the common index)."""
+    return reads_per_axis(dict(shape=case['shape'], stages=[k for k, _ in jchain(case, j)] + [case['k2']]))
+
+
+def wire_joint_reads(case):
+    return [46, [[i['store'], i['name'], [[list(c), [to_wire(ix) for ix in ks]]
+                                           for c, ks in zip(case['chunks'], joint_axes(case, j))]]
+                 for j, i in enumerate(case['inds'])]]
+
+
+def joint_np(case):
+    """numpy statement: expected output of every indexer (None = rejected) and, per stored axis, the stored positions
+    its request touches."""
+    shape = tuple(case['shape'])
+    outs, touched = [], []
+    for j, ind in enumerate(case['inds']):
+        cur = jcontent(shape, ind['store'], ind['name'])
+        pos = [np.arange(n) for n in shape]
+        alive = list(range(len(shape)))
+        try:
+            for k, trs in jchain(case, j) + [(case['k2'], [])]:
+                if len(k) > cur.ndim:
+                    raise IndexError('too many indices')
+                cur = np_oindex(cur, k)
+                nxt = []
+                for a, ax in enumerate(alive):
+                    ix = k[a] if a < len(k) else ('s', None, None, None)
+                    pos[ax] = np.atleast_1d(pos[ax][to_py(ix, True)]) if not isinstance(ix, int) else pos[ax][[ix]]
+                    if not isinstance(ix, int):
+                        nxt.append(ax)
+                alive = nxt
+                for c in trs:
+                    cur = tr_np(c, cur)
+                    if c == 1:
+                        pos[alive[-1]] = pos[alive[-1]][[0]]
+                        alive = alive[:-1]
+            outs.append(cur)
+            touched.append([sorted(set(p.tolist())) for p in pos])
+        except Exception:
+            outs.append(None)
+            touched.append(None)
+    return outs, touched
+
+
+def joint_oracle_reads(case, touched):
+    """chunks (store, name, ((lo, hi), ...)) holding at least one touched position of some indexer, each once."""
+    offs = [np.concatenate([[0], np.cumsum(c)]).tolist() for c in case['chunks']]
+    want = set()
+    for ind, t in zip(case['inds'], touched):
+        per = []
+        for ax, ps in enumerate(t):
+            per.append([(offs[ax][i], offs[ax][i + 1]) for i in range(len(case['chunks'][ax]))
+                        if any(offs[ax][i] <= p < offs[ax][i + 1] for p in ps)])
+        for combo in itertools.product(*per):
+            want.add((ind['store'], ind['name'], tuple(combo)))
+    return sorted(want)
+
+
+def run_joint_impl(case, exp):
+    import dask
+    from katdal.lazy_indexer import DaskLazyIndexer
+    shape = tuple(case['shape'])
+    chunks = tuple(tuple(c) for c in case['chunks'])
+    from fixtures import jointstore
+    JRec, JLOG = jointstore.JRec, jointstore.LOG
+    from katdal.lazy_indexer import dask_getitem
+    res = dict(exc=None, outs=None, single=None, early=[], calls=None, out_identity=True, flat=None)
+    with warnings.catch_warnings(), dask.config.set(scheduler='sync'):
+        warnings.simplefilter('ignore')
+        JLOG.clear()
+        stores = [JRec(s, x=jcontent(shape, s, 0), y=jcontent(shape, s, 1)) for s in range(case['nstores'])]
+        cache = {}
+        objs = []
+        roots = []
+        try:
+            for ind in case['inds']:
+                if ind['parent'] is not None:
+                    src = objs[ind['parent']]
+                    roots.append(roots[ind['parent']])
+                else:
+                    key = (ind['store'], ind['name'], repr(ind['pre']))
+                    if case['twin'] or key not in cache:
+                        kw = {} if not ind['pre'] else dict(index=tuple(to_py(i, True) for i in ind['pre']))
+                        cache[key] = stores[ind['store']].get_dask_array(NAMES[ind['name']], chunks, np.dtype('int64'), **kw)
+                    src = cache[key]
+                    roots.append(src.name)
+                objs.append(DaskLazyIndexer(src, tuple(to_py(i, case['as_array']) for i in ind['keep']),
+                                            [TR(c) for c in ind['trs']]))
+            k2 = tuple(to_py(i, case['as_array']) for i in case['k2'])
+            _ = [(o.shape, o.dtype, o.dataset) for o in objs]
+            # was the selected array flattened by the cull of dask_getitem?  (the stored array's own layer is gone)
+            res['flat'] = [r not in dask_getitem(o.dataset, k2).dask.layers for o, r in zip(objs, roots)]
+            res['early'] = [(t, c) for t, l in JLOG.items() for c in l]
+            JLOG.clear()
+            if case['out'] and all(e is not None for e in exp):
+                pre = [np.full(e.shape, -77, e.dtype) for e in exp]
+                outs = DaskLazyIndexer.get(objs, k2, out=pre)
+                res['out_identity'] = all(a is b for a, b in zip(outs, pre))
+            else:
+                outs = DaskLazyIndexer.get(objs, k2)
+            res['calls'] = sorted((t, n, c) for t, l in JLOG.items() for n, c in l)
+            res['outs'] = list(outs)
+            JLOG.clear()
+            res['single'] = [o[k2] for o in objs]
+        except Exception as e:
+            res['exc'] = '%s:%s' % (type(e).__name__, str(e)[:80])
+        JLOG.clear()
+    return res
+
+
+def joint_shape(case):
+    keys = [(i['store'], i['name'], repr(jchain(case, j))) for j, i in enumerate(case['inds'])]
+    other_store = any(a[0] != b[0] and a[1:] == b[1:] for a, b in itertools.combinations(keys, 2))
+    shared = any(a[:2] == b[:2] and a != b for a, b in itertools.combinations(keys, 2))
+    return other_store, shared
+
+
+def joint_sig(case, symptom):
+    other_store, shared = joint_shape(case)
+    return 'joint;n=%d;stores=%d;same_array_other_store=%s;shared_stored_array=%s;%s;symptom=%s' % (
+        len(case['inds']), len({i['store'] for i in case['inds']}), other_store, shared,
+        'contig' if case['contig'] else 'fancy', symptom)
+
+
+def same(a, b):
+    return a.shape == b.shape and a.dtype == b.dtype and np.array_equal(a, b)
+
+
+def compare_joint(ctx, case, mo, mr):
+    """mo = wire_45 output [model_joint, [spec_i ...]]; mr = wire_46 output [model, spec, sequential] (contig only)."""
+    cj = joint_json(case)
+    n = len(case['inds'])
+    exp, touched = joint_np(case)
+    spec = [dec_arr(o) for o in mo[1]]
+    model = None if mo[0] == [0] else [dec_arr(o) for o in mo[0][1]]
+    # harness / spec guard: the Coq spec against numpy, indexer by indexer
+    for j in range(n):
+        e, sp = exp[j], spec[j]
+        if (e is None) != (sp is None) or (e is not None and (
+                tuple(e.shape) != sp[0] or e.astype(np.int64).ravel().tolist() != sp[2] or DTYPES[sp[1]] != e.dtype)):
+            ctx.disagree(joint_sig(case, 'coq_spec_vs_numpy'), cj, None if e is None else e.tolist(), None,
+                         'Coq spec of indexer %d differs from numpy outer indexing (harness/spec defect)' % j, spec=sp,
+                         kind='tie')
+            return
+    in_domain = all(e is not None for e in exp)
+    impl = run_joint_impl(case, exp)
+    ctx.traces_validated += 1
+    if impl['early']:
+        ctx.disagree(joint_sig(case, 'not_lazy'), cj, impl['early'][:4], [], 'chunks were read before any element was '
+                     'requested (construction, .shape, .dtype, .dataset of the indexers of a joint request)')
+    f23 = impl['exc'] is not None and 'Missing dependency' in impl['exc']
+    f24 = impl['exc'] is not None and 'range() arg 3 must not be zero' in impl['exc']
+    if not in_domain:
+        ctx.count('joint:error_case')
+        if impl['exc'] is None:
+            ctx.count('out_of_domain_answered')
+    elif impl['exc'] is not None:
+        ctx.disagree(F23_SIG if f23 else F24_SIG if f24 else joint_sig(case, 'raises'), cj, impl['exc'], mo[0],
+                     'joint DaskLazyIndexer.get raised on a request every indexer accepts', spec=mo[1])
+    else:
+        outs = impl['outs']
+        show = [dict(shape=list(o.shape), dtype=str(o.dtype), values=o.astype(np.int64).ravel().tolist()[:24])
+                for o in outs]
+        bad_spec = [j for j in range(n) if not same(outs[j], exp[j])]
+        bad_single = [j for j in range(n) if not same(outs[j], impl['single'][j])]
+        bad_model = [] if model is None else [
+            j for j in range(n) if model[j] is None or tuple(outs[j].shape) != model[j][0]
+            or outs[j].astype(np.int64).ravel().tolist() != model[j][2] or outs[j].dtype != DTYPES[model[j][1]]]
+        if model is None or bad_model:
+            ctx.disagree(joint_sig(case, 'tie:joint_output'), cj, show, mo[0], 'joint get differs from the extracted '
+                         'name-keyed model of DaskLazyIndexer.get (outputs %s)' % bad_model, spec=mo[1], kind='tie')
+        if bad_spec or bad_single:
+            j = (bad_spec or bad_single)[0]
+            other = [i for i in range(n) if i != j and exp[i] is not None and same(outs[j], exp[i])]
+            sym = 'output_of_another_indexer' if other else (
+                'shape' if outs[j].shape != exp[j].shape else 'dtype' if outs[j].dtype != exp[j].dtype else 'wrong_data')
+            ctx.disagree(joint_sig(case, sym), cj, show, mo[0], 'DaskLazyIndexer.get of several indexers differs from '
+                         'fetching them one by one / from transform(array[stage 1])[stage 2] (outputs %s vs spec, %s vs '
+                         'one-by-one)' % (bad_spec, bad_single), spec=mo[1])
+        if not impl['out_identity']:
+            ctx.disagree(joint_sig(case, 'out_not_used'), cj, 'returned arrays are not the given out= arrays', None,
+                         'DaskLazyIndexer.get(out=...) did not return the caller\'s output arrays')
+    # reads of the ONE joint request, per store
+    if case['contig'] and mr is not None and in_domain and impl['exc'] is None:
+        offs = [np.concatenate([[0], np.cumsum(c)]).tolist() for c in case['chunks']]
+        dec = lambda o: None if o == [0] else sorted(
+            (k[0], k[1], tuple((offs[a][i], offs[a][i + 1]) for a, i in enumerate(k[2]))) for k in o[1])
+        m_reads, s_reads = dec(mr[0]), dec(mr[1])
+        oracle = joint_oracle_reads(case, touched)
+        if m_reads is None or s_reads is None or s_reads != oracle or m_reads != s_reads:
+            ctx.disagree(joint_sig(case, 'coq_reads_vs_oracle'), cj, oracle, m_reads, 'Coq joint read model / spec differ '
+                         'from the numpy statement of "chunks touched by some indexer" (harness/spec defect)', spec=s_reads,
+                         kind='tie')
+        else:
+            got = [(t, NAMES.index(nm), c) for t, nm, c in impl['calls']]
+            empty = any(any(len(p) == 0 for p in t) for t in touched)
+            culled = [bool(b) for b in mr[3]]
+            twice = dec(mr[4])
+            if not empty and impl['flat'] != culled:
+                ctx.disagree(joint_sig(case, 'tie:culled_flag'), cj, impl['flat'], culled, 'which selected arrays '
+                             'dask_getitem flattened (cull) differs from the model j_culled', kind='tie')
+            if got != m_reads:
+                cnt = {k: got.count(k) for k in set(got)}
+                if empty:
+                    ctx.disagree(F21_SIG, cj, got, m_reads, 'a joint request with an empty region read extra chunks')
+                elif set(got) == set(m_reads) and all(v == 1 or (v == 2 and k in twice) for k, v in cnt.items()):
+                    ctx.disagree(F48_SIG, cj, got, m_reads, 'a chunk needed by a culled and an un-culled selected '
+                                 'array of one stored array was fetched twice in one joint request', spec=s_reads)
+                else:
+                    gs, es = set(got), set(m_reads)
+                    sym = 'chunk_read_twice' if gs == es else ('over_read' if gs > es else 'under_read' if gs < es
+                                                               else 'other_reads')
+                    if gs - es and all((k[0], k[1]) not in {(i['store'], i['name']) for i in case['inds']}
+                                       for k in gs - es):
+                        sym = 'read_from_uninvolved_store_or_array'
+                    ctx.disagree(joint_sig(case, sym), cj, got, m_reads, 'get_chunk calls of the joint request, per '
+                                 'store, differ from: the chunks meeting the region of some indexer of that stored '
+                                 'array, each once', spec=s_reads)
+            if any(culled):
+                ctx.count('joint:some_selection_culled')
+            ctx.count('joint:reads_compared' if not empty else 'joint:reads_empty_region')
+            ctx.extra['joint_reads_stores_max'] = max(ctx.extra.get('joint_reads_stores_max', 0),
+                                                     len({k[0] for k in m_reads}))
+    other_store, shared = joint_shape(case)
+    nonempty = in_domain and all(e.size > 0 for e in exp)
+    ctx.note_case(('joint', tuple(case['shape']), repr(case['chunks']), repr(cj['inds']), repr(cj['k2'])),
+                  nontrivial=bool(nonempty and (other_store or shared)),
+                  sample=dict(shape=case['shape'], chunks=case['chunks'], inds=cj['inds'], k2=cj['k2']))
+    ctx.count('joint:n=%d' % n)
+    ctx.count('joint:stores=%d' % len({i['store'] for i in case['inds']}))
+    ctx.count('joint:contig' if case['contig'] else 'joint:fancy')
+    if other_store:
+        ctx.count('joint:same_array_other_store')
+    if shared:
+        ctx.count('joint:shared_stored_array')
+    if any(i['parent'] is not None for i in case['inds']):
+        ctx.count('joint:nested')
+    if any(i['pre'] for i in case['inds']):
+        ctx.count('joint:index_view')
+    if case['out']:
+        ctx.count('joint:out_given')
+
+
+def run_joint(ctx, cases):
+    outs = ctx.model([wire_joint(c) for c in cases])
+    routs = ctx.model([wire_joint_reads(c) for c in cases])
+    for c, o, r in zip(cases, outs, routs):
+        compare_joint(ctx, c, o, r if c['contig'] else None)
+
+
+# ---------------------------------------------------------------------------------------------
 
 F20_WITNESS = dict(shape=[5], chunks=[[2, 3]], levels=[[[], []]], k2=[['s', -6, 2, -2]], src='from_array',
                    as_array=True, mutate=False, joint=False, f20=True)
@@ -661,6 +1052,8 @@ def run_findings(ctx):
         if w.get('stream') == 'reads':
             case = dict(w['case'], stages=[[from_json(i) for i in k] for k in w['case']['stages']])
             compare_reads(ctx, case, ctx.model([wire_reads(case)])[0])
+        elif 'inds' in w:
+            run_joint(ctx, [joint_from_json(w)])
         elif 'levels' in w:
             case = case_from_json(w)
             compare(ctx, case, ctx.model([wire_case(case)])[0])
@@ -682,9 +1075,11 @@ def run(ctx):
     routs = ctx.model([wire_reads(c) for c in rcases])
     for c, o in zip(rcases, routs):
         compare_reads(ctx, c, o)
+    jcases = [gen_joint_case(rng) for _ in range(ctx.scale(700, 8000))]
+    run_joint(ctx, jcases)
     if ctx.tier == 'thorough':
         exhaustive_small(ctx)
-        cross_check_extraction(ctx, cases[:150], rcases[:50])
+        cross_check_extraction(ctx, cases[:150], rcases[:50], jcases[:60])
 
 
 def small_alphabet(n):
@@ -730,9 +1125,10 @@ def exhaustive_small(ctx):
     ctx.extra['small_1d_pairs'] = len(cases)
 
 
-def cross_check_extraction(ctx, cases, rcases):
+def cross_check_extraction(ctx, cases, rcases, jcases=()):
     from vh import core
-    wc = [wire_case(c) for c in cases] + [wire_reads(c) for c in rcases]
+    wc = [wire_case(c) for c in cases] + [wire_reads(c) for c in rcases] + [wire_joint(c) for c in jcases] \
+        + [wire_joint_reads(c) for c in jcases if c['contig']]
     a = ctx.model(wc)
     # the thorough tier cleans the Coq tree and rebuilds only this property's cone: make sure every model the
     # dispatcher imports is compiled before evaluating inside Coq
@@ -754,7 +1150,9 @@ def cross_check_extraction(ctx, cases, rcases):
 
 def replay(ctx, doc):
     case = doc.get('case', {})
-    if 'stages' in case:
+    if 'inds' in case:
+        run_joint(ctx, [joint_from_json(case)])
+    elif 'stages' in case:
         c = dict(case, stages=[[from_json(i) for i in k] for k in case['stages']])
         compare_reads(ctx, c, ctx.model([wire_reads(c)])[0])
     elif 'levels' in case:
